@@ -485,6 +485,21 @@ func runCheck(P *Program, DB *ContractDB, prop, tier string, only string) *check
 		res.funcs = append(res.funcs, rep.Func)
 		obls = append(obls, rep.Obligations...)
 	}
+	for _, pd := range DB.PerCapture {
+		has := false
+		for _, p := range pd.Props {
+			if p == prop {
+				has = true
+			}
+		}
+		if !has || only != "" && !strings.Contains(pd.Closure, only) {
+			continue
+		}
+		rep := VerifyPerCapture(P, DB, pd, prop)
+		res.reports = append(res.reports, rep)
+		res.funcs = append(res.funcs, rep.Func)
+		obls = append(obls, rep.Obligations...)
+	}
 	for _, nd := range DB.NoWholeStore {
 		has := false
 		for _, p := range nd.Props {
@@ -768,6 +783,9 @@ func report(P *Program, DB *ContractDB, res *checkResult, prop, tier string, wri
 	var violations []string
 	var samples []any
 	replayDir := filepath.Join(VerifDir, "replays")
+	if RepoDir != "/repo" {
+		replayDir = filepath.Join(os.TempDir(), "govc-scratch-replays")
+	}
 	broken := false
 	var unreachable []string
 	for i := range res.records {
@@ -965,6 +983,9 @@ func writeEvidenceFile(P *Program, DB *ContractDB, res *checkResult, prop, tier 
 			"gen_s":                    res.genS,
 			"solve_s":                  res.solveS,
 		},
+	}
+	if RepoDir != "/repo" {
+		return // developer run on a scratch tree (GOVC_REPO): evidence comes from /repo only
 	}
 	os.MkdirAll(filepath.Join(VerifDir, "evidence"), 0o755)
 	b, _ := json.MarshalIndent(ev, "", " ")
